@@ -471,7 +471,10 @@ def do_query(m, ref, medges, eid, sort_on, q, ctx, where):
             except Exception:
                 ok2, r2 = ctx.call(sig, C.face_id, row)
             if ok and ok2:
-                ctx.check(r == f and r2 == f, sig, f"{where}: face_id(*face_to_vertices({f})) = {r!r}, face_id(face_to_vertices({f})) = {r2!r}")
+                # (C13 also feeds surfaces with two faces on one vertex set, e.g. a pillow of two triangles: the key of a face cannot
+                # tell them apart, so any face with exactly these vertices is a right answer)
+                same = [g for g in range(nF) if key(ref.F[g]) == key(ref.F[f])]
+                ctx.check(r in same and r2 in same, sig, f"{where}: face_id(*face_to_vertices({f})) = {r!r}, face_id(face_to_vertices({f})) = {r2!r}, faces with these vertices: {same}")
             i = b % len(row)
             ok, r = ctx.call(sig, C.in_face_index, f, row[i])
             if ok:
